@@ -145,8 +145,10 @@ type Continue struct{ Level int }
 type Return struct{ E Expr }
 type ExprStmt struct{ E Expr }
 type StaticDecl struct {
-	V    *Var
-	Init int64
+	V       *Var
+	Init    int64
+	IsStr   bool
+	StrInit string
 }
 type Catch struct {
 	Types []string
